@@ -181,12 +181,20 @@ pub struct Scan {
 pub fn scan<'a, Sec: UnwindSection<Sl<'a>>>(sec: &Sec, bases: &BaseAddresses, sect: &[u8], max: usize) -> Scan {
     let mut items = vec![];
     let mut it = sec.entries(bases);
+    // the end is final: the iterator is polled twice more after it reported the end, and
+    // whatever it yields then is recorded like any other entry / error
+    let mut ended = 0;
     let end = loop {
         if items.len() > max {
             break Err(gimli::Error::TooManyRegisterRules); // sentinel: runaway
         }
         match it.next() {
-            Ok(None) => break Ok(()),
+            Ok(None) => {
+                ended += 1;
+                if ended == 3 {
+                    break Ok(());
+                }
+            }
             Err(e) => break Err(e),
             Ok(Some(CieOrFde::Cie(c))) => items.push(Got::Cie(got_cie(sec, bases, &c, sect))),
             Ok(Some(CieOrFde::Fde(p))) => {
